@@ -1,6 +1,7 @@
 import DoviModel.Model.Av1
 import DoviModel.Proofs.Bits
 import DoviModel.Proofs.NoPanic
+import DoviModel.Proofs.NoPanic2
 /-! # C08 — parsing untrusted bytes always returns (model theorems; extended in Proofs/NoPanic.lean) -/
 namespace Dovi.C08
 open Dovi
@@ -48,5 +49,31 @@ theorem ue64_witness_panics :
 
 /-- … and a well-formed sample header is `Good` -/
 example : Good (bytesToBits [25, 8, 9, 8, 64, 97, 54, 80]) := by decide
+
+/-! ## the other parsing entry points -/
+
+/-- unwrapping an AV1 T.35 OBU payload (EMDF container: header constants, variable-length size field with
+`u32` accumulator, payload copy) never panics, for every byte string -/
+theorem av1_unwrap_never_panics (data : Bytes) : Av1.unwrap data ≠ .panic :=
+  Av1.unwrap_never_panics data
+
+/-- the AV1 entry point panics only where the RPU parser does (third-party exp-Golomb sites) -/
+theorem av1_parse_no_panic (data : Bytes)
+    (hg : ∀ b, Av1.unwrap data = .ok b → Good (bytesToBits (b.take (b.length - trailingZeroes b)))) :
+    Av1.parseObu data ≠ .panic :=
+  Av1.parseObu_no_panic data hg
+
+/-- the HEVC NAL entry point (prefix trimming + emulation-prevention removal + parse) -/
+theorem nalu_parse_no_panic (d : Bytes)
+    (hg : ∀ t, trimPrefix d = .ok t →
+      Good (bytesToBits ((Esc.unescape t).take ((Esc.unescape t).length - trailingZeroes (Esc.unescape t))))) :
+    parseNalu d ≠ .panic :=
+  parseNalu_no_panic d hg
+
+/-- the RPU file reader, for every read chunk size: it panics only if the NAL parser panics on a slice of the
+file (the chunk loop, its carry-over and its slicing arithmetic cannot panic) -/
+theorem rpu_file_no_panic (c : Nat) (file : Bytes)
+    (hnp : ∀ d, d <:+: file → RpuFile.parseNalu d ≠ .panic) : RpuFile.parseRpuFile c file ≠ .panic :=
+  RpuFile.parseRpuFile_no_panic c file hnp
 
 end Dovi.C08
